@@ -2,4 +2,5 @@ open Model
 let entries : (string * (byte list -> byte list)) list = [
   "omap_model", omap_model_line;
   "omap_spec", omap_spec_line;
+  "num_model", num_model_line;
 ]
